@@ -31,6 +31,7 @@ impl Prop for C15P {
         for (c, r) in shapes(n) {
             v.push(Recv::owned(c, r).enc());
             v.push(Recv::foreign_owned(c, r).enc());
+            v.push(Recv::direct_long(c, r).enc());
             // interior window of a (c+2) x (r+2) parent
             v.push(Recv::window(c + 2, r + 2, (1, 1), (1 + c, 1 + r)).enc());
             if c <= 5 && r <= 5 {
@@ -115,7 +116,7 @@ impl Prop for C15P {
         }
     }
     fn rule(&self) -> String {
-        "every shape (0..=N)^2 with unique cells, every mid in (0..=C+1) x (0..=R+1) plus huge components, on owned arrays, on a third-party implementor using only the trait defaults, and on windows (interior, edge-touching, nested) of a larger parent: \
+        "every shape (0..=N)^2 with unique cells, every mid in (0..=C+1) x (0..=R+1) plus huge components, on owned arrays, on a third-party implementor using only the trait defaults, on windows (interior, edge-touching, nested) of a larger parent and on views built directly over a longer slice: \
          mid <= (C,R) => new[(c,r)] == old[((c+mc) mod C, (r+mr) mod R)] for all cells (so nothing is lost or duplicated) and the parent outside a window is unchanged; a larger mid panics and changes nothing; flip_rows / flip_cols against new[(c,r)] == old[(c,R-1-r)] / old[(C-1-c,r)]. \
          A hang in the cycle-leader loop is caught by the worker watchdog. A case is (receiver, operation, mid); non-trivial = valid call on a non-empty receiver; distinct by the tuple."
             .into()
